@@ -340,13 +340,11 @@ Definition continue_client (c : cfg) (st : cstate) (a : N) : step_result :=
       match buf_send c st (IDelete k cf) with
       | Some st1 => StepOk (set_client st1 a KIdle) (mk_out PtFinish [] (RUnit true))
       | None =>
-          if c_async c then
-            (* the async remove awaits the send; a closed channel is ignored *)
-            match s_pc st with
-            | PExited => StepOk (set_client st a KIdle) (mk_out PtFinish [] (RUnit true))
-            | _ => StepBlocked
-            end
-          else StepOk (set_client st a KIdle) (mk_out PtFinish [] (RUnit false))
+          (* remove waits for room in the buffer (both flavours); a closed channel is ignored *)
+          match s_pc st with
+          | PExited => StepOk (set_client st a KIdle) (mk_out PtFinish [] (RUnit true))
+          | _ => StepBlocked
+          end
       end
   | KWaitAfterSend id =>
       if s_closed st then StepOk (set_client st a KIdle) (mk_out PtFinish [] (RUnit true))
